@@ -377,7 +377,9 @@ func HashSetOfValueUnion(vm *Thread, x *HashSetOfValue, y *HashSetOfValue) (*Has
 	}
 
 	newSet := NewHashSetOfValue(shorter.Length() + longer.Length())
-	HashSetOfValueCopy(vm, newSet, longer)
+	if err := HashSetOfValueCopy(vm, newSet, longer); !err.IsUndefined() {
+		return nil, err
+	}
 	for _, shorterVal := range shorter.table {
 		if shorterVal == DeletedHashSetValue || shorterVal.IsUndefined() {
 			continue
@@ -395,7 +397,9 @@ func HashSetOfValueUnion(vm *Thread, x *HashSetOfValue, y *HashSetOfValue) (*Has
 // Create a new set that is the union of the given two sets
 func HashSetOfValueUnionInterface(vm *Thread, x *HashSetOfValue, y HashSet) (*HashSetOfValue, value.Value) {
 	newSet := NewHashSetOfValue(x.Length() + y.Length())
-	HashSetOfValueCopy(vm, newSet, x)
+	if err := HashSetOfValueCopy(vm, newSet, x); !err.IsUndefined() {
+		return nil, err
+	}
 	for v := range y.All() {
 		_, err := HashSetOfValueAppend(vm, newSet, v)
 		if !err.IsUndefined() {
@@ -429,7 +433,9 @@ func HashSetOfValueIntersection(vm *Thread, x *HashSetOfValue, y *HashSetOfValue
 			return nil, err
 		}
 		if contains {
-			HashSetOfValueAppend(vm, newSet, shorterVal)
+			if _, err := HashSetOfValueAppend(vm, newSet, shorterVal); !err.IsUndefined() {
+				return nil, err
+			}
 		}
 	}
 
@@ -449,7 +455,9 @@ func HashSetOfValueIntersectionInterface(vm *Thread, x *HashSetOfValue, y HashSe
 			return nil, err
 		}
 		if contains {
-			HashSetOfValueAppend(vm, newSet, yVal)
+			if _, err := HashSetOfValueAppend(vm, newSet, yVal); !err.IsUndefined() {
+				return nil, err
+			}
 		}
 	}
 
@@ -521,7 +529,9 @@ func HashSetOfValueCopyTable(vm *Thread, target *HashSetOfValue, source []value.
 func HashSetOfValueCopy(vm *Thread, target *HashSetOfValue, source *HashSetOfValue) value.Value {
 	requiredCapacity := target.Length() + source.Length()
 	if target.Capacity() < requiredCapacity {
-		HashSetOfValueSetCapacity(vm, target, requiredCapacity)
+		if err := HashSetOfValueSetCapacity(vm, target, requiredCapacity); !err.IsUndefined() {
+			return err
+		}
 	}
 
 	for _, entry := range source.table {
@@ -586,9 +596,13 @@ func HashSetOfValueSetCapacity(vm *Thread, set *HashSetOfValue, capacity int) va
 
 func HashSetOfValueAppendWithMaxLoad(vm *Thread, set *HashSetOfValue, val value.Value, maxLoad float64) (bool, value.Value) {
 	if set.Capacity() == 0 {
-		HashSetOfValueSetCapacity(vm, set, 5)
+		if err := HashSetOfValueSetCapacity(vm, set, 5); !err.IsUndefined() {
+			return false, err
+		}
 	} else if float64(set.occupiedSlots) >= float64(set.Capacity())*maxLoad {
-		HashSetOfValueSetCapacity(vm, set, set.occupiedSlots*2)
+		if err := HashSetOfValueSetCapacity(vm, set, set.occupiedSlots*2); !err.IsUndefined() {
+			return false, err
+		}
 	}
 
 	index, err := HashSetIndex(vm, set, val)
